@@ -143,3 +143,24 @@ Definition roundtrip (conv : numconv) (compact : bool) (src : bytes) : rt_result
     else (RtNotClean, None)
   | _ => (RtNotClean, None)
   end.
+
+(* the formatter as a function on source text: None = the source is not accepted (or the printer panicked) *)
+Definition format (conv : numconv) (compact : bool) (src : bytes) : option bytes :=
+  match front_parse conv false src with
+  | POk r => if clean r then print_program compact false (pr_tree r) else None
+  | _ => None
+  end.
+
+Fixpoint beqb (a b : bytes) : bool :=
+  match a, b with
+  | [], [] => true
+  | x :: a', y :: b' => N.eqb x y && beqb a' b'
+  | _, _ => false
+  end.
+
+(* formatting formatted text returns it unchanged *)
+Definition idempotent_on (conv : numconv) (compact : bool) (src : bytes) : bool :=
+  match format conv compact src with
+  | None => true
+  | Some t1 => match format conv compact t1 with Some t2 => beqb t1 t2 | None => false end
+  end.
